@@ -236,9 +236,9 @@ def make_e_abc(params, part, nparts):
         exp = _expected(ns['meth'], 1)
         reached(case, dict(src=src.splitlines()[0]))
         info = m.getSignatureInfo()
-        for what in ('positional', 'varargs', 'kwargs'):
+        for what in ('positional', 'required', 'optional', 'varargs', 'kwargs'):
             got = info[what]
-            got = tuple(got) if what == 'positional' else got
+            got = tuple(got) if what in ('positional', 'required') else got
             if got != exp[what]:
                 raise Violation('ABC %s: %s=%r expected %r' % (src.splitlines()[0], what, got, exp[what]),
                                 signature=_classify(case[3], case[2], case[4], what))
